@@ -125,7 +125,7 @@ for m in $ALL; do
   # the mutant run must not be excused by the known-findings file of the real tree
   # except for the findings that are already there
   cat "$ROOT/known_findings.txt" "$ROOT/props/c05/PROPOSED_KNOWN.txt" > "$W/$m/root/known_findings.txt"
-  VERIF_ROOT="$W/$m/root" "$W/$m/bin" quick > "$W/$m/out.txt" 2>&1
+  C05_TIME_CAP=${C05_TIME_CAP:-0} VERIF_ROOT="$W/$m/root" "$W/$m/bin" quick > "$W/$m/out.txt" 2>&1
   code=$?
   echo "MUTANT $m: exit $code  ($(grep -c '^VIOLATION' "$W/$m/out.txt") violation classes; $(tail -1 "$W/$m/out.txt"))"
   grep -A1 '^VIOLATION' "$W/$m/out.txt" | grep 'sig:' | sed 's/^/      /' | head -8
